@@ -76,11 +76,19 @@ func (e *evalEnv) evalNode(t *Term) uint64 {
 				v = uint64(e.rnd.Intn(2))
 			} else {
 				v = e.rnd.Uint64() & mask(w)
-				switch e.rnd.Intn(4) {
+				switch e.rnd.Intn(6) {
 				case 0:
 					v = 0
 				case 1:
 					v = mask(w)
+				case 2: // carry boundaries: low half all ones / only the high half set
+					if w >= 16 {
+						v = mask(w / 2)
+					}
+				case 3:
+					if w >= 16 {
+						v = mask(w) &^ mask(w/2)
+					}
 				}
 			}
 			e.vals[t.ID] = v
